@@ -24,7 +24,7 @@ META = {
         "technique": "deterministic simulation: seeded pool schedules/transports + call histories, row-at-a-time reference oracle",
         "level_text": "Seeded exploration of execution paths x schedules x call histories on the real code: every marginal_ln_likelihood path must return the "
         "row-at-a-time fresh-helper reference L* in input order (bitwise where both sides share a conversion), equal seeds must accept the same rows on every path, "
-        "and a long-lived helper driven through random likelihood/posterior/pickle interleavings must keep returning L*. Histories include: other data sets / libraries / posterior stages on the same TheJoker, one shared file name rewritten with another library (other units, other row count, also in append+overwrite mode), a survey replaced inside the same data container, setup_mcmc between calls, equal-seed call SEQUENCES under different batching (accepted set must agree at every step), real worker processes (proc transport); monitors: the user's library and data objects must not be edited, objects returned earlier must not change later; a sample of seeds is re-executed in fresh interpreters and must give the same outputs. Equal-seed iterative_rejection_sample twins across cache/file, pools and transports must accept the same rows; a second caller interleaved at the pool seam (same process / forked sibling / suspended mid-call) must get what it gets alone and must not disturb the first; options are also passed as numpy integers / np.bool_. Sampling, not proof: a clean batch is evidence.",
+        "and a long-lived helper driven through random likelihood/posterior/pickle interleavings must keep returning L*. Histories include: other data sets / libraries / posterior stages on the same TheJoker, one shared file name rewritten with another library (other units, other row count, also in append+overwrite mode), a survey replaced inside the same data container, setup_mcmc between calls, equal-seed call SEQUENCES under different batching (accepted set must agree at every step), real worker processes (proc transport); monitors: the user's library and data objects must not be edited, objects returned earlier must not change later; a sample of seeds is re-executed in fresh interpreters and must give the same outputs. Equal-seed iterative_rejection_sample twins across cache/file, pools and transports must accept the same rows; a second caller interleaved at the pool seam (same process / forked sibling / suspended mid-call) must get what it gets alone and must not disturb the first; options are also passed as numpy integers / np.bool_. Sampling, not proof: a clean batch is evidence. A call of the history may FAIL half-way (injected worker / pool.map fault in a 'history' call on the main sampler): the target calls after it are judged as always.",
         "level_note": "Trusts: numpy/h5py/PyTables/astropy/dill; SimPool's model of multiprocess pools (by-value chunks, any completion order, results in task order); "
         "L* is computed by the system's own kernel so kernel arithmetic is out of scope (C01). Worker isolation on the in-process transports covers the task data and thejoker's module-level attributes; anything else per-process only on the proc transport.",
         "design_ref": "DESIGN.md section 4 / C05",
@@ -42,7 +42,7 @@ META = {
         "technique": "deterministic simulation: history check at the RNG seam (recorded uniforms/shuffles) against a reference acceptance model, over paths x schedules x seeds",
         "level_text": "Seeded exploration: every rejection_sample call (in-memory / cache / file, shuffled or not, truncated or not, under seeded pool schedules) is judged from the "
         "history recorded at the RNG, pool and storage seams: rows evaluated (from the task lists / in-memory evaluation point), the uniform vector drawn on the sampler's own generator, "
-        "the row-at-a-time likelihood L*, and a pure-Python reference acceptance loop; the returned nonlinear columns must be exactly the accepted library rows, in evaluation order, truncated at the right end.",
+        "the row-at-a-time likelihood L*, and a pure-Python reference acceptance loop; the returned nonlinear columns must be exactly the accepted library rows, in evaluation order, truncated at the right end. Histories also contain a call that FAILS half-way (injected worker / pool.map fault, raised to the caller): the calls after it on the same sampler, files and process are judged exactly as in a fault-free history. In a quarter of the runs a second library of the same size, other values, other column units and other ln_prior tags shares ONE file name with the first; the user regenerates the file between calls and every call must reflect what the file holds now.",
         "level_note": "Input dimension (libraries, data) is only as dense as the configuration swarm samples it (weaker than dedicated input generation): libraries of 1..300 rows, plus (thorough tier, ~1 run in 2000) a scale probe of 2^20+k rows whose reference is evaluated in 4096-row chunks. ll comes from the system's own kernel (L*). "
         "Positions where exp(ll-max) is within 1e-12 of u are not judged. NaN likelihoods are outside the quantifier and not judged.",
         "design_ref": "DESIGN.md section 4 / C02",
@@ -53,7 +53,7 @@ META = {
         "level": "exploration",
         "technique": "deterministic simulation: draw-to-row attribution at the RNG seam + differential of (a, A) across schedules/histories (closed form NOT claimed)",
         "level_text": "RESTRICTED claim: attribution, count, order and units of the linear draws, unchanged nonlinear copy, metadata, and bit-identical (mean, cov) arguments for a library row whatever the "
-        "batching, transport, order, pool kind or call history (fresh-helper single-row reference). The distributional core -- that (a, A) equal the closed-form conditional posterior -- is a pure function of the inputs and is not decided by this technique.",
+        "batching, transport, order, pool kind or call history (fresh-helper single-row reference). The distributional core -- that (a, A) equal the closed-form conditional posterior -- is a pure function of the inputs and is not decided by this technique. Histories also contain a call that FAILS half-way (injected worker / pool.map fault, raised to the caller): the calls after it on the same sampler, files and process are judged exactly as in a fault-free history. In a quarter of the runs a second library of the same size, other values, other column units and other ln_prior tags shares ONE file name with the first; the user regenerates the file between calls and every call must reflect what the file holds now.",
         "level_note": "Does not check the values of a, A against the analytic formula (jitter, K-variance cap): that is input-space work outside deterministic simulation. Trusts numpy's multivariate_normal.",
         "design_ref": "DESIGN.md section 4 / C03",
         "rule": _SCHED_RULE + "C03 attributes every recorded multivariate_normal draw to the accepted library row it was made for.",
@@ -64,7 +64,7 @@ META = {
         "real_vs_stub": _RVS_STUB,
         "technique": "deterministic simulation: unique-tag attribution of ln_prior/ln_likelihood through three index spaces over paths x schedules",
         "level_text": "Every library row carries a unique ln_prior tag; with return_logprobs the returned tag must name the library row whose nonlinear values the row holds and ln_likelihood must be L* of that row; "
-        "return_all_logprobs must equal L* in evaluation order; both samplers, all paths, shuffled/subset/truncated configurations biased so that the three index spaces differ.",
+        "return_all_logprobs must equal L* in evaluation order; both samplers, all paths, shuffled/subset/truncated configurations biased so that the three index spaces differ. Histories also contain a call that FAILS half-way (injected worker / pool.map fault, raised to the caller): the calls after it on the same sampler, files and process are judged exactly as in a fault-free history. In a quarter of the runs a second library of the same size, other values, other column units and other ln_prior tags shares ONE file name with the first; the user regenerates the file between calls and every call must reflect what the file holds now.",
         "level_note": "Depends on the C02/C14 reconstruction of the expected accepted rows; ops whose acceptance is not judgeable (NaN, ambiguous) are skipped.",
         "design_ref": "DESIGN.md section 4 / C06",
         "rule": _SCHED_RULE + "C06 checks the tag carried by each returned row.",
@@ -75,7 +75,7 @@ META = {
         "technique": "deterministic simulation: twin replays under different schedules/pool kinds and poisoned global RNG state; stream-uniqueness invariant at the pool seam; mid-run clone twin",
         "level_text": "Each call sequence runs as twins with equal seeds and batching but different schedules (transport, chunking, completion order, worker assignment, serial vs simulated multi-process pool) "
         "and different poisoned numpy/python global random state: outputs must be bit-identical, global state digests unchanged after every op, every child generator crossing the pool seam unique, no draw block repeated, and a clone of the generator taken mid-run must reproduce the remaining ops. Also: the same Generator object rewound to a saved state must reproduce prior.sample / rejection_sample(data, <int>); no two returned rows may carry identical linear parameters (output-based form of stream independence); "
-        "a task must never carry the sampler's own generator; and a sample of seeds is re-executed in fresh interpreters whose per-op OUTPUT digests must equal the original's (cross-process form of 'equal seed and inputs give bit-identical outputs': reaches process-global state shared between priors/objects; confirmed through an explicit prelude replay before it is reported).",
+        "a task must never carry the sampler's own generator; and a sample of seeds is re-executed in fresh interpreters whose per-op OUTPUT digests must equal the original's (cross-process form of 'equal seed and inputs give bit-identical outputs': reaches process-global state shared between priors/objects; confirmed through an explicit prelude replay before it is reported). The cross-process sample prefers runs that drew linear parameters from the prior (prior.sample(generate_linear=True)).",
         "level_note": "Real multiprocess scheduling is modelled by SimPool. Workers are not dealt seeds by prior for C10 (all eight prior configurations meet in every worker process). A cross-process output difference is reported as a violation only after sim.replay reproduced it twice from an explicit replay file (program alone in a fresh interpreter vs after the prelude of earlier seeds).",
         "design_ref": "DESIGN.md section 4 / C10",
         "rule": _SCHED_RULE + "C10 runs every program three times (twin A, twin B under another schedule and global poison, clone twin C).",
@@ -85,7 +85,7 @@ META = {
         "level": "exploration",
         "technique": "deterministic simulation: seeded stateful write/overwrite/append/read histories against an in-memory table model, with refused-operation and storage-open faults",
         "level_text": "Histories of 2-10 file operations over 1-3 paths (.hdf5/.h5/.fits) are executed on the real code and compared op by op with a reference table model: read-back equality (columns, values bitwise, units, t_ref, poly_trend, n_offsets), "
-        "appends = concatenation, must-refuse appends (different column set, conflicting metadata) raise and leave the file byte-identical (SHA-256), may-refuse appends either raise+identical or convert correctly (an accepted append into a narrower float type must not change any value), read_batch returns exactly the requested rows/columns/units. Histories also: zero-row tables, the same JokerSamples object written again (also after a refused write), a column of a live object replaced between writes, the file used as a sampler library in between, and the sampler's own outputs written and appended.",
+        "appends = concatenation, must-refuse appends (different column set, conflicting metadata) raise and leave the file byte-identical (SHA-256), may-refuse appends either raise+identical or convert correctly (an accepted append into a narrower float type must not change any value), read_batch returns exactly the requested rows/columns/units. Histories also: zero-row tables, the same JokerSamples object written again (also after a refused write), a column of a live object replaced between writes, the file used as a sampler library in between, and the sampler's own outputs written and appended. A table that must be refused for its column set may carry a metadata keyword the file lacks (JokerSamples(..., run_id=...)): the file must still be byte-identical afterwards.",
         "level_note": "Appending a table whose t_ref is None to a file that has one, and what remains after a write that failed half-way, are unspecified by the statement and not judged. Reading through an open PyTables group is outside the model (the code records that limitation).",
         "design_ref": "DESIGN.md section 4 / C12",
         "rule": "One case = one seeded history of file operations. distinct_nontrivial counts distinct (operation, variant/selector kind, file format, file existed or not) tuples reached; a single write is trivial, any op on an existing file or a refused/faulted op is not.",
@@ -107,7 +107,7 @@ META = {
         "real_vs_stub": _RVS_STUB,
         "technique": "deterministic simulation: history check over RNG + storage + pool seams with NaN-row storage fault",
         "level_text": "Every iterative_rejection_sample call is judged from the recorded history: rows handed to the likelihood (no row twice, at most min(max_prior_samples, N)), the last uniform vector on the sampler's generator, L* over all evaluated rows, "
-        "reference acceptance against the max over ALL evaluated rows, first n_requested accepted returned with their linear draws; too-small libraries must raise; any outcome other than a JokerSamples or a raised exception is a violation. The growth schedule is not in the oracle.",
+        "reference acceptance against the max over ALL evaluated rows, first n_requested accepted returned with their linear draws; too-small libraries must raise; any outcome other than a JokerSamples or a raised exception is a violation. The growth schedule is not in the oracle. Histories also contain a call that FAILS half-way (injected worker / pool.map fault, raised to the caller): the calls after it on the same sampler, files and process are judged exactly as in a fault-free history. In a quarter of the runs a second library of the same size, other values, other column units and other ln_prior tags shares ONE file name with the first; the user regenerates the file between calls and every call must reflect what the file holds now.",
         "level_note": "Bounded progress = at most 130 likelihood rounds. Corrupted (NaN) stored value is the storage fault used for the 'always raises' clause.",
         "design_ref": "DESIGN.md section 4 / C14",
         "rule": _SCHED_RULE + "C14 judges each iterative call against the reference acceptance model over all evaluated rows.",
